@@ -35,6 +35,9 @@ def generate():
     meta.append(transplant_file(
         "ant-node/src/put_validation.rs", f"{DST}/put_validation.rs",
         {"ant_evm": "crate::shim::ant_evm", "ant_protocol": "crate::shim::ant_protocol", "ant_networking": "crate::shim::ant_networking"},
+        # type-level: the only 64-bit integers this file handles are scratchpad counters (none is named today; a helper
+        # extracted by a refactor may take one as a parameter)
+        post=lambda body: re.sub(r"\bu64\b", "crate::shim::Counter", body),
         append='#[path = "../h_put.rs"]\npub mod harness;\n',
         require=["async fn payment_for_us_exists_and_is_still_valid", "async fn validate_key_and_existence",
                  "pub(crate) async fn store_replicated_in_record", "pub(crate) async fn validate_and_store_scratchpad_record"]))
@@ -52,7 +55,7 @@ def generate():
                      "use crate::{node::Node, Result};\n"
                      "use crate::shim::ant_networking::{GetRecordCfg, Network};\n"
                      "use crate::shim::ant_protocol::{messages::{Cmd, Query, QueryResponse, Request, Response}, storage::RecordType, NetworkAddress, PrettyPrintRecordKey};\n"
-                     "use libp2p::{kad::{Quorum, Record, RecordKey}, PeerId};\nuse symrt::env::spawn;\n\n"
+                     "use libp2p::{kad::{Quorum, Record, RecordKey}, PeerId};\nuse symrt::env::spawn;\n#[allow(unused_imports)]\nuse bytes::Bytes;\n\n"
                      "impl Node {\n" + rp + "\n}\n\n#[path = \"../h_replication.rs\"]\npub mod harness;\n")
     # the contract wrapper of evmlib (C03): verify_data_payment over a model PaymentVaultHandler
     v, mv = extract_items("evmlib/src/contract/payment_vault/mod.rs", [("fn", "verify_data_payment")])
@@ -63,6 +66,11 @@ def generate():
                      "use ::ant_evm::EvmNetwork as Network;\nuse evmlib::common::{Address, Amount, QuoteHash};\nuse evmlib::quoting_metrics::QuotingMetrics;\n\n" + v + "\n")
     # the network layer's resolution of split replies, which sits between the swarm and the client read (C15)
     hs, mh = extract_items("ant-networking/src/lib.rs", [("fn", "handle_split_record_error")])
+    # the client-facing read with its retry loop (C05): every attempt is one GetNetworkRecord command answered by the
+    # harness's model driver; the back-off sleep is a no-op
+    gr, mgr = extract_items("ant-networking/src/lib.rs", [("fn", "get_record_from_network")])
+    gr = gr.replace("crate::target_arch::sleep(", "crate::shim::retry::sleep(")
+    meta.append(mgr)
     gt, mg = extract_items("ant-networking/src/transactions.rs", [("fn", "get_transactions_from_record")])
     meta += [mh, mg]
     # the only integers this function handles are scratchpad counters, which are the symbolic Counter type here
@@ -75,8 +83,12 @@ def generate():
                      "use libp2p::kad::{Record, RecordKey};\nuse libp2p::PeerId;\n"
                      "use std::collections::{HashMap, HashSet};\nuse xor_name::XorName;\n"
                      "#[allow(unused_imports)]\nuse bytes::Bytes;\n"
+                     "#[allow(unused_imports)]\nuse ::ant_networking::{GetRecordCfg, GetRecordError};\n"
+                     "#[allow(unused_imports)]\nuse ant_protocol::storage::RetryStrategy;\n"
+                     "#[allow(unused_imports)]\nuse crate::shim::retry::{oneshot, NetworkSwarmCmd};\n"
+                     "pub use crate::shim::retry::Network;\n"
                      "type Result<T, E = NetworkError> = std::result::Result<T, E>;\n\n"
-                     + gt + "\n\npub struct Network;\n\nimpl Network {\n" + hs.replace("    fn handle_split_record_error", "    pub(crate) fn handle_split_record_error") + "\n}\n")
+                     + gt + "\n\nimpl Network {\n" + hs.replace("    fn handle_split_record_error", "    pub(crate) fn handle_split_record_error") + "\n\n" + gr + "\n}\n")
     # client read paths (C15): items of autonomi
     a, m1 = extract_items("autonomi/src/client/data/public.rs", [("fn", "chunk_get")])
     b, m2 = extract_items("autonomi/src/client/vault.rs", [("enum", "VaultError"), ("fn", "get_vault_from_network")])
